@@ -252,6 +252,63 @@ func TestC07Exprs(t *testing.T) {
 	})
 }
 
+// TestC07Deep: expressions nested tens to hundreds of levels deep, mixing
+// every kind of group (parentheses, argument lists, index brackets, in-lists,
+// signs): the grammar puts no bound on nesting.
+func TestC07Deep(t *testing.T) {
+	st := harn.NewStats(env, "deep")
+	defer st.Flush()
+	rapid.Check(t, func(rt *rapid.T) {
+		g := gen.NewG(rt, gen.Cfg{MaxDepth: 1})
+		depth := rapid.IntRange(20, 300).Draw(rt, "nesting")
+		if rapid.IntRange(0, 3).Draw(rt, "boundary") == 0 {
+			depth = rapid.SampledFrom([]int{31, 32, 33, 63, 64, 65, 66, 127, 128, 129, 255, 256, 257}).Draw(rt, "boundarydepth")
+		}
+		var x gen.Expr = gen.ID("x")
+		kinds := map[string]bool{}
+		// a run of one wrapper kind, then another: deep stretches of each
+		for d := 0; d < depth; {
+			k := rapid.SampledFrom([]string{"paren", "call", "index", "in", "sign", "call2", "indexbase"}).Draw(rt, "wrapper")
+			run := rapid.IntRange(1, 1+depth/3).Draw(rt, "run")
+			kinds[k] = true
+			for j := 0; j < run && d < depth; j, d = j+1, d+1 {
+				switch k {
+				case "paren":
+					x = &gen.Paren{X: x}
+				case "call":
+					x = &gen.Call{Func: "f", Args: []gen.Expr{x}}
+				case "call2":
+					x = &gen.Call{Func: "g", Args: []gen.Expr{&gen.Num{Text: "1"}, x, gen.ID("z")}}
+				case "index":
+					x = &gen.Index{X: gen.ID("m"), I: x}
+				case "indexbase":
+					x = &gen.Index{X: &gen.Paren{X: x}, I: &gen.Str{Value: "k"}}
+				case "in":
+					x = &gen.Paren{X: &gen.In{X: gen.ID("a"), Vals: []gen.Expr{&gen.Num{Text: "0"}, x}}}
+				default:
+					x = &gen.Unary{Op: "-", X: &gen.Paren{X: x}}
+				}
+			}
+		}
+		pr := gen.PrintExpr(x)
+		want := gen.Canon(x)
+		for li := 0; li < 2; li++ {
+			var seps []string
+			if li == 1 {
+				seps = g.Seps(len(pr.Toks))
+			}
+			laid := gen.Layout(pr, seps)
+			c := exprCase{Src: laid.Src, SrcQ: mkStrCase(laid.Src).SrcQ, Canon: want}
+			st.Eval()
+			st.ClassN("nesting-levels", int64(depth))
+			st.NonTrivial(fmt.Sprint(depth, len(kinds), li, len(laid.Src)))
+			if msg := checkExprTree(c); msg != "" {
+				st.Violation(rt, "C07", "exprtree", c, "an expression nested %d deep (%d bytes): %s", depth, len(laid.Src), trunc(msg, 400))
+			}
+		}
+	})
+}
+
 func progNonTrivial(p *gen.Program, src string) (bool, []string) {
 	var classes []string
 	nt := false
